@@ -37,6 +37,10 @@ class Undecided(Exception):
     pass
 
 
+class DomainError(Exception):
+    """the traced code applies a real function outside its domain for admissible inputs (a genuine failure, not a limit of the stand-ins)"""
+
+
 ONE = sp.Integer(1)
 
 RULES = {
@@ -539,6 +543,7 @@ def _new_cholesky(p):
     k = next(CTX.fresh)
     L = Base(f"L{k}", p.rows, p.cols, inv=True, tri="lower", kind="defined", definition=p, fn="chol")
     L.weight = 1
+    L.posdiag = True
     CTX.hyp(f"cholesky argument {p} is positive definite")
     CTX.lad_eqs.append(2 * L.lad - lad_of(p))  # before the defining relation rewrites p itself
     Lp = Poly.atom(L)
@@ -920,6 +925,7 @@ class DiagVec:
             k = next(CTX.fresh)
             R = Base(f"R{k}", p.rows, p.cols, diag=True, inv=True, kind="defined", definition=p, fn="sqrt-of")
             R.weight = 1
+            R.posdiag = True
             Rp = Poly.atom(R)
             s = p.single()
             if s is not None and len(s[0]) == 1:
@@ -995,6 +1001,16 @@ class DiagOf:
             if st in ("lower", "upper", "diag"):
                 return lad_of(p)
             raise Undecided(f"sum(log|diag|) of a matrix not known to be triangular: {p}")
+        if self.ops == ("log",):
+            # log without abs: defined only where every diagonal entry is positive -- true for Cholesky factors and positive diagonal parameters,
+            # not for an arbitrary triangular / LU factor (whose diagonal may carry any signs: log|det| is still an ordinary number there)
+            p = nf(self.poly)
+            positive = self.kind != "lu" and bool(p.terms) and all(c.is_positive and all(getattr(o[0], "posdiag", False) for o in m) for m, c in p.terms.items()) \
+                and len(p.terms) == 1
+            if positive:
+                return lad_of(p)
+            raise DomainError(f"log of the diagonal of {p} without abs(): the diagonal of this factor is not known to be positive (nan for a negative entry, "
+                              "although log|det| is finite)")
         raise Undecided(f"sum of the diagonal of a symbolic matrix after {self.ops}")
 
     def __rtruediv__(self, o):
@@ -1186,6 +1202,11 @@ class NPShim:
     def log(x):
         if isinstance(x, DiagOf):
             return x._with("log")
+        if isinstance(x, DiagVec):
+            d = DiagOf(x.mat())
+            if x.positive:
+                return d._with("abs")._with("log")
+            return d._with("log")
         if isinstance(x, Scal):
             return Scal(sp.log(x.e))
         if isinstance(x, sp.Basic):
